@@ -152,6 +152,13 @@ where
         let e = &self.data.equilibration.e;
         data.update_vector(&mut self.data.b, e, None)?;
 
+        // cap entries in b at INFINITY, as is done when the
+        // problem data is first built (b is held in scaled form)
+        let infbound: T = crate::get_infinity().as_T();
+        for (b, &e) in self.data.b.iter_mut().zip(e.iter()) {
+            *b = T::min(*b, infbound * e);
+        }
+
         // flush unscaled norm. Will be recalculated during solve
         self.data.clear_normb();
 
